@@ -641,7 +641,11 @@ func (or Or) Match(m *Matcher, node any) (any, bool) {
 }
 
 func (not Not) Match(m *Matcher, node any) (any, bool) {
+	// Whether or not the operand matches, none of its bindings may be
+	// visible afterwards.
+	m.push()
 	_, ok := match(m, not.Node, node)
+	m.pop()
 	if ok {
 		return nil, false
 	}
